@@ -126,6 +126,24 @@ class Ctx:
         self.results.append(r)
         return r
 
+    def run_py(self, script, args, tag, timeout=3600):
+        out = os.path.join(self.run_dir, "result-%s-%d.json" % (tag, len(self.results)))
+        cmd = [sys.executable, os.path.join(self.verif, "oracles", script)] + [a.replace("{out}", out) for a in args]
+        t = time.time()
+        try:
+            p = subprocess.run(cmd, stdout=subprocess.PIPE, stderr=subprocess.PIPE, text=True, timeout=timeout)
+        except subprocess.TimeoutExpired:
+            self.inconclusive.append("watchdog: offline checker %s did not finish in %ds" % (tag, timeout))
+            return None
+        if p.returncode != 0 or not os.path.exists(out):
+            self.inconclusive.append("offline checker %s failed: %s" % (tag, p.stderr[-600:]))
+            return None
+        r = json.load(open(out))
+        r["_step"] = tag
+        r["_secs"] = round(time.time() - t, 1)
+        self.results.append(r)
+        return r
+
     def add_result(self, r):
         self.results.append(r)
 
